@@ -16,7 +16,8 @@
 (*   [pc, regs, mem, status, n, cyc1, ev]                                  *)
 (*  regs : register name -> Word (the zero register is not stored)         *)
 (*  mem  : sparse function address -> 0..255 over an image (see ImgByte)   *)
-(*  status \in {"run","ret","end","err","oob","misaligned","fuel"}         *)
+(*  status \in {"run","ret","end","err","oob","fuel"}; misal: some access   *)
+(*         was not naturally aligned (such runs are outside C01's quantifier) *)
 (*  n    : number of executed instructions                                 *)
 (*  cyc1 : cycle ledger of the unpipelined MVP-1 latency model (C12)       *)
 (*  ev   : executed path: per step the instruction index, the accessed     *)
@@ -102,7 +103,7 @@ Taken(op, a, b) ==
     [] op = "bnez" -> a # Zero32
 
 (* the architectural effect of one instruction, as a record:               *)
-(*   kind \in {"reg","mem","none","ret","err","oob","misaligned"}           *)
+(*   kind \in {"reg","mem","none","ret","err","oob"}; mis = not naturally aligned *)
 (*   rd, val      register written (kind = "reg"; also for jal/jalr)        *)
 (*   addr, bytes  stored bytes (kind = "mem")                               *)
 (*   loads        addresses read                                            *)
@@ -112,7 +113,7 @@ Effect(i, pc, regs, mem, img, memSize, progLen) ==
       b == R(regs, i.rs2)
       immW == FromInt(i.imm)
       base == [kind |-> "none", rd |-> "zero", val |-> Zero32, addr |-> 0, bytes |-> <<>>,
-               loads |-> <<>>, next |-> pc + 4]
+               loads |-> <<>>, next |-> pc + 4, mis |-> FALSE]   \* mis: the access is not naturally aligned
       ea == ToInt(Add(a, immW))
   IN
   CASE i.op \in ROps ->
@@ -129,18 +130,16 @@ Effect(i, pc, regs, mem, img, memSize, progLen) ==
     [] i.op \in LoadOps ->
          LET w == Width(i.op) IN
          IF ea < 0 \/ ea + w > memSize THEN [base EXCEPT !.kind = "oob"]
-         ELSE IF ea % w # 0 THEN [base EXCEPT !.kind = "misaligned"]
          ELSE LET B(k) == MemByte(mem, img, ea + k)
                   v == CASE w = 1 -> SextB(B(0))
                          [] w = 2 -> SextH(B(1) * 256 + B(0))
                          [] w = 4 -> FromBytes(B(0), B(1), B(2), B(3))
-              IN [base EXCEPT !.kind = "reg", !.rd = i.rd, !.val = v,
+              IN [base EXCEPT !.kind = "reg", !.rd = i.rd, !.val = v, !.mis = (ea % w # 0),
                               !.loads = [k \in 1 .. w |-> ea + k - 1], !.addr = ea]
     [] i.op \in StoreOps ->
          LET w == Width(i.op) bs == Bytes(b) IN
          IF ea < 0 \/ ea + w > memSize THEN [base EXCEPT !.kind = "oob"]
-         ELSE IF ea % w # 0 THEN [base EXCEPT !.kind = "misaligned"]
-         ELSE [base EXCEPT !.kind = "mem", !.addr = ea, !.bytes = [k \in 1 .. w |-> bs[k]]]
+         ELSE [base EXCEPT !.kind = "mem", !.addr = ea, !.mis = (ea % w # 0), !.bytes = [k \in 1 .. w |-> bs[k]]]
     [] i.op \in CondOps ->
          IF Taken(i.op, a, b)
          THEN IF i.tgt < 0 THEN [base EXCEPT !.kind = "err"]      \* undefined label
@@ -192,7 +191,7 @@ L1D3(i, eff, l1d) ==
 
 InitStateM(regs, mem0) ==
   [pc |-> 0, regs |-> regs, mem |-> mem0, status |-> "run", n |-> 0, cyc1 |-> 0,
-   cyc2 |-> 0, win2 |-> <<-1, -1>>, cyc3 |-> 0, l1i3 |-> <<>>, l1d3 |-> <<>>,
+   cyc2 |-> 0, win2 |-> <<-1, -1>>, cyc3 |-> 0, l1i3 |-> <<>>, l1d3 |-> <<>>, misal |-> FALSE,
    ev |-> <<>>]
 InitState(regs) == InitStateM(regs, <<>>)
 
@@ -203,7 +202,7 @@ Step(prog, st, img, memSize) ==
   ELSE
     LET i == prog[st.pc \div 4 + 1]
         e == Effect(i, st.pc, st.regs, st.mem, img, memSize, Len(prog))
-        st1 == [st EXCEPT !.n = @ + 1, !.cyc1 = @ + Cyc1(i, e),
+        st1 == [st EXCEPT !.n = @ + 1, !.cyc1 = @ + Cyc1(i, e), !.misal = @ \/ e.mis,
                           !.cyc2 = @ + Cyc1(i, e) - LatMem + Fetch2(st.win2, st.pc), !.win2 = Win2(@, st.pc),
                           !.cyc3 = @ + Cyc3(i, e, st.l1i3, st.l1d3, st.pc),
                           !.l1i3 = L1I3(@, st.pc), !.l1d3 = L1D3(i, e, @),
